@@ -119,7 +119,7 @@ func (c *ingestor) ingestBlock(batch db.KeyValueWriter, blockNumber uint64) (int
 		return 0, err
 	}
 
-	err = c.validateCount(
+	alreadyMigrated, err := c.validateCount(
 		blockNumber,
 		txCount,
 		len(blockTransactions.Indexes.Transactions),
@@ -128,20 +128,28 @@ func (c *ingestor) ingestBlock(batch db.KeyValueWriter, blockNumber uint64) (int
 	if err != nil {
 		return 0, err
 	}
+	if alreadyMigrated {
+		// The combined entry was committed by a previous (interrupted) run whose batches were
+		// written out of order. The old buckets are empty for this block, so writing the freshly
+		// built (empty) entry would erase the migrated transactions and receipts.
+		return txCount, nil
+	}
 
 	return txCount, core.BlockTransactionsBucket.Put(batch, blockNumber, &blockTransactions)
 }
 
+// validateCount checks the fetched old-layout entries against the block header. It reports
+// alreadyMigrated when the old buckets hold nothing for the block and the combined entry exists.
 func (c *ingestor) validateCount(
 	blockNumber uint64,
 	txCount int,
 	fetchedTxCount,
 	fetchedReceiptCount int,
-) error {
+) (alreadyMigrated bool, err error) {
 	if fetchedTxCount == 0 || fetchedReceiptCount == 0 {
 		has, err := core.BlockTransactionsBucket.Has(c.database, blockNumber)
 		if err != nil {
-			return err
+			return false, err
 		}
 		// Already migrated
 		if has {
@@ -149,23 +157,27 @@ func (c *ingestor) validateCount(
 				"skipping already migrated block",
 				zap.Uint64("blockNumber", blockNumber),
 			)
-			return nil
+			return true, nil
 		}
 		// Not migrated yet, no transactions found, while there are expected transactions
 		if txCount > 0 {
-			return errors.New("missing transactions and receipts")
+			return false, errors.New("missing transactions and receipts")
 		}
 	}
 
 	if fetchedTxCount != txCount {
-		return fmt.Errorf("invalid transactions: expected %d, got %d", txCount, fetchedTxCount)
+		return false, fmt.Errorf(
+			"invalid transactions: expected %d, got %d", txCount, fetchedTxCount,
+		)
 	}
 
 	if fetchedReceiptCount != txCount {
-		return fmt.Errorf("invalid receipts: expected %d, got %d", txCount, fetchedReceiptCount)
+		return false, fmt.Errorf(
+			"invalid receipts: expected %d, got %d", txCount, fetchedReceiptCount,
+		)
 	}
 
-	return nil
+	return false, nil
 }
 
 func extractValues(seq iter.Seq2[prefix.Entry[[]byte], error]) iter.Seq2[cbor.RawMessage, error] {
